@@ -1093,6 +1093,13 @@ class ManifestRecursiveLoader:
                     fpath = os.path.join(relpath, mname)
                     if fpath in self.loaded_manifests:
                         continue
+                    # another file with a Manifest name next to
+                    # the top-level Manifest can not be referenced
+                    # by any Manifest (update skips it), and loading it
+                    # would make it overwrite the top-level Manifest
+                    # when their names meet on save
+                    if relpath == '':
+                        continue
 
                     # we've just found ourselves a new Manifest,
                     # let's try to load it
